@@ -31,6 +31,8 @@ def run(ctx: Ctx):
     pickup_rule(ctx)
     lost_update(ctx)
     who_charges(ctx)
+    ctx.attempt(gained_equals_stored, ctx)
+    ctx.attempt(dispensed_keys, ctx)
     ctx.floor("DU.same-value", 3)
     ctx.floor("DU.setter", 4)
     ctx.floor("WMC", 8)
@@ -268,6 +270,30 @@ def who_charges(ctx: Ctx):
                 ok = states.ndump(p.value, ren) == want
         ctx.check(ok, "D3", "DU.provenance", f"{cname}._perform_update charges at the station whose plug it holds, with its own plug id", fn,
                   why_bad="charges elsewhere", construct=f"{cname}:charge-target")
+
+
+def gained_equals_stored(ctx: Ctx):
+    """What a vehicle books as gained is exactly the change of its stored level (the same delta charge() books as
+    dispensed and prices): both MechatronicsInterface implementations of add_energy (shared with C04-D2)."""
+    from . import c04
+    for file, cname in ((c04.BEV, "BEV"), (c04.ICE, "ICE")):
+        fn = ctx.repo.func(file, f"{cname}.add_energy")
+        c04.mechatronics_method(ctx, fn, cname, "add_energy", "tick_energy_gained", "up")
+
+
+def dispensed_keys(ctx: Ctx):
+    """A station's energy_dispensed map is initialised for EVERY energy type: tick_energy_dispensed only updates keys
+    that exist, so a type missing at construction (plug types can be appended later) would never be booked."""
+    fn = ctx.repo.func(ST, "Station.build")
+    vals = set()
+    for p in flow.paths(fn.node):
+        if p.kind == "return" and isinstance(p.value, ast.Call):
+            for k in p.value.keywords:
+                if k.arg == "energy_dispensed":
+                    vals.add(flow.dump(k.value))
+    ok = vals == {"immutables.Map({energy_type: 0.0 for energy_type in EnergyType})"}
+    ctx.check(ok, "D2", "DU.dispensed-keys", "Station.build initialises energy_dispensed to 0.0 for every EnergyType", fn,
+              why_bad=f"energy_dispensed = {sorted(vals)}: an energy type absent here is silently dropped by tick_energy_dispensed", construct="Station.build:energy_dispensed-keys")
 
 
 def selftest():
